@@ -1593,6 +1593,152 @@ select Order { number, total, lines: { qty, amount } } filter .number = <int64>$
 }
 
 
+# ---------------------------------------------------- tuple-parameter family
+# Queries whose parameters include tuple-typed ones (tuple_args: an encoded PARENT parameter without a physical
+# slot + its decoded sub-parameters) in every position of the parameter list, with and without globals.  Each is
+# compiled by the real server compiler twice: as an uncached request (detach_params=False) and as a cacheable one
+# (cache key => detach_params=True, CompileResult.detached_params, __qh_ wrapper function).
+
+TP_SHAPES = [
+    # (tag, type, use of the parameter P)
+    ('tuple', 'tuple<int64, str>', '({P}).1'),
+    ('named-tuple', 'tuple<a: str, b: int64>', '({P}).a'),
+    ('array-of-tuple', 'array<tuple<int64, str>>', 'len({P})'),
+    ('nested-tuple', 'tuple<int64, tuple<str, int64>>', '({P}).1.0'),
+    ('tuple-with-array-of-tuple', 'tuple<str, array<tuple<int64, str>>>', '({P}).0'),
+    ('array-of-nested-tuple', 'array<tuple<str, tuple<int64, bool>>>', '{P}'),
+]
+TP_SCALARS = ['int64', 'str', 'bool', 'float64', 'array<int64>']
+TP_POSITIONS = ['only', 'first', 'middle', 'last', 'two-tuples', 'last-after-two']
+
+
+def tuple_param_query(rng, pos, shape, globs, named=False, optional=False):
+    tag, typ, use = shape
+    def pname(i):
+        return f'p{i}' if named else str(i)
+    def scal(i):
+        t = rng.choice(TP_SCALARS)
+        return f'<{"optional " if rng.random() < 0.3 else ""}{t}>${pname(i)}'
+    def tup(i, sh=None):
+        _, ty, us = sh or shape
+        return us.replace('{P}', f'<{"optional " if optional else ""}{ty}>${pname(i)}')
+    if pos == 'only':
+        items = [tup(0)]
+    elif pos == 'first':
+        items = [tup(0), scal(1)]
+    elif pos == 'middle':
+        items = [scal(0), tup(1), scal(2)]
+    elif pos == 'last':
+        items = [scal(0), tup(1)]
+    elif pos == 'two-tuples':
+        items = [tup(0), tup(1, rng.choice(TP_SHAPES))]
+    else:
+        items = [scal(0), scal(1), tup(2)]
+    items += [f'global {g}' for g in globs]
+    if len(items) == 1:
+        return f'select {items[0]}'
+    return 'select (' + ', '.join(items) + ')'
+
+
+def gen_tuple_param_family(rng, descs):
+    out = []
+    gschema = 'issues' if 'issues' in descs else sorted(descs)[0]
+    gnames = sorted(g for g, gd in descs[gschema].get('globals', {}).items() if not gd.get('computed')) \
+        if isinstance(descs[gschema].get('globals'), dict) else []
+    gsets = [()] + [(g,) for g in gnames] + ([tuple(gnames[:2])] if len(gnames) > 1 else [])
+    others = sorted(descs)
+    def add(pos, shape, globs, **kw):
+        text = tuple_param_query(rng, pos, shape, globs, **kw)
+        sch = gschema if globs else rng.choice(others)
+        out.append(dict(schema=sch, kind=f'tuple-param-family:{pos}:{shape[0]}:{"globals" if globs else "no-globals"}',
+                        text=text, pdetach=True))
+    # core: every position x {no globals, each global set in turn}; every shape in the LAST position without globals
+    for i, pos in enumerate(TP_POSITIONS):
+        add(pos, TP_SHAPES[i % len(TP_SHAPES)], ())
+        if len(gsets) > 1:
+            add(pos, TP_SHAPES[(i + 1) % len(TP_SHAPES)], gsets[1 + i % (len(gsets) - 1)])
+    for shape in TP_SHAPES:
+        add('last', shape, ())
+        add('only', shape, (), optional=True)
+    # random part of the product
+    for _ in range(24):
+        add(rng.choice(TP_POSITIONS), rng.choice(TP_SHAPES), rng.choice(gsets),
+            named=rng.random() < 0.3, optional=rng.random() < 0.3)
+    seen, uniq = set(), []
+    for q in out:
+        if q['text'] not in seen:
+            seen.add(q['text'])
+            uniq.append(q)
+    return uniq
+
+
+def detach_oracle(r, want_detach):
+    """(a) placeholders of the SQL are exactly $1..$N, N = physical parameters (no tuple parents) + globals + their
+    present flags, numbered as the argmap says; (b) under detach_params the reported parameter list has exactly N
+    entries and entry i is the pg type of what the argmap binds at $i (so: no entry for a tuple parent).
+    -> list of (subkey, message)"""
+    bad = []
+    parents = [n for n, _, has_sub, _ in r['ir_params'] if has_sub]
+    slots = [n for n, _, has_sub, _ in r['ir_params'] if not has_sub]
+    flags = set()
+    for n, _, has_present in r['ir_globals']:
+        slots.append(n)
+        if has_present:
+            slots.append(n + 'present__')
+            flags.add(n + 'present__')
+    N = len(slots)
+    am = {k: ix for k, ix, _, _ in r['argmap']}
+    missing = [k for k in slots if k not in am]
+    if missing:
+        return [('count', f'argmap lacks {missing}')]
+    bound = {}
+    for k in slots:
+        bound.setdefault(am[k], []).append(k)
+    if sorted(bound) != list(range(1, N + 1)) or any(len(v) > 1 for v in bound.values()):
+        bad.append(('count', f'the argmap binds the {N} physical parameters to {sorted(am[k] for k in slots)}, '
+                             f'not to 1..{N}'))
+    want = list(range(1, N + 1))
+    if r['params_codegen'] != want:
+        bad.append(('count', f'placeholders in the SQL tree are {r["params_codegen"]}, expected exactly 1..{N}'))
+    if r.get('params_unit_text') is not None and r['params_unit_text'] != want:
+        bad.append(('count', f'placeholders in the SQL text are {r["params_unit_text"]}, expected exactly 1..{N}'))
+    dp = r.get('detached_params')
+    if not want_detach:
+        if dp:
+            bad.append(('count', f'detach_params is off but detached_params = {dp}'))
+        return bad
+    dp = dp or []
+    types = r.get('param_pg_types') or {}
+    if len(dp) != N:
+        # is the difference exactly the present flags of the globals ?
+        nonflag = sorted(ix for ix, ks in bound.items() if ks[0] not in flags)
+        if flags and len(dp) == len(nonflag) and all(
+                dp[j] == types.get(bound[ix][0]) for j, ix in enumerate(nonflag)):
+            bad.append(('present-flag',
+                        f'detached_params has {len(dp)} entries {dp} but the SQL and the argmap use ${1}..${N}: the '
+                        f'present flag(s) {sorted(flags)} (bound at {sorted(am[f] for f in flags)}) have no entry'))
+        else:
+            extra = ''
+            if len(dp) > N and parents:
+                extra = f' (tuple parent(s) {parents} own no physical slot and must have no entry)'
+            bad.append(('count', f'detached_params has {len(dp)} entries {dp} but the SQL and the argmap use '
+                                 f'{N} parameters $1..${N}{extra}'))
+        return bad
+    for ix in range(1, N + 1):
+        k = bound.get(ix, [None])[0]
+        if k is None or k in flags:
+            continue
+        if dp[ix - 1] != types.get(k):
+            bad.append(('type', f'detached_params[{ix - 1}] = {dp[ix - 1]} but ${ix} is bound to {k!r} of pg type '
+                                f'{types.get(k)}'))
+    cf = r.get('cache_func')
+    if isinstance(cf, dict) and cf.get('declared') is not None and len(cf['declared']) != N:
+        bad.append(('count', f'the cache function is declared with {len(cf["declared"])} arguments, the query binds {N}'))
+    if isinstance(cf, dict) and cf.get('call_placeholders') is not None and cf['call_placeholders'] != want:
+        bad.append(('count', f'the cache function call passes {cf["call_placeholders"]}, expected 1..{N}'))
+    return bad
+
+
 def load_regressions():
     path = os.path.join(core.VERIF, 'corpus', 'C13', 'regressions.json')
     if not os.path.exists(path):
@@ -1615,6 +1761,8 @@ def gen_population(rng, descs, n_random):
         for line in txt.strip().split('\n'):
             if line.strip():
                 out.append(dict(schema=sname, kind='fixed-json', text=line.strip(), fmt='json'))
+    have_t = {o['text'] for o in out}
+    out.extend(q for q in gen_tuple_param_family(rng, descs) if q['text'] not in have_t)
     seen = {o['text'] for o in out}
     tries = 0
     n_fixed = len(out)
@@ -1739,6 +1887,7 @@ class Capture:
         self.pgc = pgc
         self.orig = pgc.compile_ir_to_sql_tree
         self.calls = []
+        self.detach_flags = []
         self._type_ctes = None
         orig_insert = clauses.insert_ctes
 
@@ -1752,6 +1901,7 @@ class Capture:
             self._type_ctes = None
             res = self.orig(ir_expr, **kw)
             self.calls.append((ir_expr, res, self._type_ctes or []))
+            self.detach_flags.append(bool(kw.get('detach_params')))
             return res
 
         pgc.compile_ir_to_sql_tree = wrapper
@@ -1900,12 +2050,13 @@ class Catalog:
         return sorted(cols) + SYSTEM_COLUMNS
 
 
-def compile_one(envm, cap: Capture, codegen, schema, text, tree_path=None, fmt=None):
+def compile_one(envm, cap: Capture, codegen, schema, text, tree_path=None, fmt=None, cache_key=None):
     """One query through the REAL server compiler (edb.server.compiler.compile: EdgeQL -> IR -> SQL
     tree -> SQL text + type descriptors); the SQL tree and argmap are captured on the way."""
     from edb import errors
     rec = {}
     cap.calls.clear()
+    cap.detach_flags.clear()
     cap.probes.clear()
     try:
         if fmt == 'json':
@@ -1913,6 +2064,12 @@ def compile_one(envm, cap: Capture, codegen, schema, text, tree_path=None, fmt=N
             ctx = envm.server_context(schema, output_format=_enums.OutputFormat.JSON)
         else:
             ctx = envm.server_context(schema)
+        if cache_key is not None:
+            # what the server's compile request does for a cacheable query (`cache_key=request.get_cache_key()`):
+            # with the default query_cache_mode (PgFunc) `_compile_ql_query` then passes detach_params=True and
+            # builds the `__qh_<key>` wrapper function from CompileResult.detached_params
+            import dataclasses as _dc
+            ctx = _dc.replace(ctx, cache_key=cache_key)
         grp = envm.server_compile(ctx, text)
     except errors.InternalServerError as e:
         return dict(status='ise', err=f'{type(e).__name__}: {str(e)[:300]}')
@@ -1939,11 +2096,48 @@ def compile_one(envm, cap: Capture, codegen, schema, text, tree_path=None, fmt=N
         if tree_path is not None:
             tp = tree_path if k == 0 else tree_path.replace('.json.gz', f'.{k}.json.gz')
         recs.append(statement_record(ir, res, server, codegen, tp, type_ctes))
+        recs[-1]['detach'] = cap.detach_flags[k] if k < len(cap.detach_flags) else None
+        if cache_key is not None and len(units) == len(cap.calls):
+            recs[-1]['cache_func'] = cache_function_args(grp, k)
     rec = recs[0]
     rec['probes'] = probes
     if len(recs) > 1:
         rec['extra'] = recs[1:]
     return rec
+
+
+def cache_function_args(grp, k):
+    """what the server made of detached_params: argument types of the CREATE FUNCTION __qh_<key>(...) statement and
+    the `$n::type` arguments of the call that replaces the query (None if the unit has no cache function)"""
+    try:
+        u = list(grp)[k]
+        cs = getattr(u, 'cache_sql', None)
+        call = getattr(u, 'cache_func_call', None)
+        if not cs or not cs[0]:
+            return None
+        m = re.search(r'CREATE\s+FUNCTION\s+\S+?__qh_[0-9a-f]+\((.*?)\)\s*RETURNS', cs[0].decode('utf-8', 'replace'), re.S)
+        out = {'declared': [x.strip() for x in m.group(1).split(',') if x.strip()] if m else None}
+        if call:
+            ct = call[0] if isinstance(call, (tuple, list)) else call
+            ct = ct.decode('utf-8', 'replace') if isinstance(ct, bytes) else str(ct)
+            mm = re.search(r'__qh_[0-9a-f]+"?\((.*?)\)\s*(AS|$)', ct, re.S)
+            out['call_placeholders'] = sorted({int(x) for x in re.findall(r'\$(\d+)', mm.group(1) if mm else ct)})
+        return out
+    except Exception as e:       # observation only
+        return {'error': f'{type(e).__name__}: {e}'}
+
+
+def param_pg_types(ir):
+    """name -> pg type the SQL compiler's own type mapping gives the parameter / global (computed here, outside
+    compile_ir_to_sql_tree, from the IR alone)"""
+    from edb.pgsql import types as pgtypes
+    out = {}
+    for p in list(ir.params) + list(ir.globals):
+        try:
+            out[p.name] = list(pgtypes.pg_type_from_ir_typeref(p.ir_type.base_type or p.ir_type, serialized=True))
+        except Exception as e:
+            out[p.name] = [f'<{type(e).__name__}>']
+    return out
 
 
 def statement_record(ir, res, server, codegen, tree_path, type_ctes=()):
@@ -1968,6 +2162,8 @@ def statement_record(ir, res, server, codegen, tree_path, type_ctes=()):
     rec['ir_params'] = [[p.name, bool(p.required), bool(p.sub_params), bool(p.is_sub_param)]
                         for p in ir.params]
     rec['ir_globals'] = [[g.name, bool(g.required), bool(g.has_present_arg)] for g in ir.globals]
+    rec['detached_params'] = None if res.detached_params is None else [list(x) for x in res.detached_params]
+    rec['param_pg_types'] = param_pg_types(ir)
     rec['flagged_unused'] = sorted(split_unused(res.ast))
     try:
         from edb.common.ast import visitor as _visitor
@@ -1995,6 +2191,30 @@ def statement_record(ir, res, server, codegen, tree_path, type_ctes=()):
     rec['names'] = {tok: raw.decode('utf-8', 'replace') for raw, tok in ex.names.items()}
     rec['unexported'] = audit_unexported(res.ast, ex)
     return rec
+
+
+PDETACH_FIELDS = ('status', 'err', 'sql', 'params_codegen', 'params_unit_text', 'argmap', 'ir_params', 'ir_globals',
+                  'detached_params', 'param_pg_types', 'detach', 'cache_func', 'flagged_unused')
+
+
+def wants_detach_probe(q) -> bool:
+    """the tuple-parameter family, replays, regressions, and every query that mentions a tuple-typed parameter or
+    uses parameters together with globals"""
+    t = q['text']
+    return bool(q.get('pdetach') or q['kind'] in ('replay', 'regression')
+                or ('$' in t and ('tuple<' in t or 'global ' in t)))
+
+
+def detach_probe(envm, cap, codegen, schema, text, fmt):
+    """the same query once more through the REAL server compiler, now with a cache key as a cacheable request has
+    (persistent PgFunc query cache => compile_ir_to_sql_tree(detach_params=True) + _build_cache_function)"""
+    import uuid as _uuid
+    r = compile_one(envm, cap, codegen, schema, text, fmt=fmt,
+                    cache_key=_uuid.UUID(hashlib.md5(text.encode()).hexdigest()))
+    out = {f: r.get(f) for f in PDETACH_FIELDS if f in r}
+    if r.get('extra'):
+        out['extra'] = [{f: x.get(f) for f in PDETACH_FIELDS if f in x} for x in r['extra']]
+    return out
 
 
 def worker_main(spec_path: str, out_path: str):
@@ -2030,6 +2250,8 @@ def worker_main(spec_path: str, out_path: str):
             try:
                 rec = compile_one(envm, cap, codegen, schemas[q['schema']], q['text'],
                                   tree_path=os.path.join(tree_dir, f'{i}.json.gz'), fmt=q.get('fmt'))
+                if wants_detach_probe(q):
+                    rec['pdetach'] = detach_probe(envm, cap, codegen, schemas[q['schema']], q['text'], q.get('fmt'))
             except Exception:
                 rec = dict(status='worker-error', err=traceback.format_exc()[-1500:])
             rec['i'] = i
@@ -3230,6 +3452,10 @@ def run(ctx: core.Ctx):
             other = []
             if a['argmap'] != b['argmap']:
                 other.append(('argmap', dict(a=a['argmap'], b=b['argmap'])))
+            pa, pb = a.get('pdetach') or {}, b.get('pdetach') or {}
+            if (pa.get('detached_params'), pa.get('argmap'), pa.get('cache_func')) != \
+                    (pb.get('detached_params'), pb.get('argmap'), pb.get('cache_func')):
+                other.append(('detached-params', dict(a=pa.get('detached_params'), b=pb.get('detached_params'))))
             sa, sb = a.get('server') or [], b.get('server') or []
             if len(sa) != len(sb):
                 other.append(('server-units', None))
@@ -3337,6 +3563,37 @@ def run(ctx: core.Ctx):
         real_am = [tuple(x) for x in a['argmap']]
         for bmsg in argmap_oracle(am_case, real_am):
             ctx.fail(f'argmap-real:{key}', bmsg, base_detail | {'argmap': a['argmap']})
+        # (b') SQL placeholders / argmap / detached parameter list, without and with detach_params
+        pd_runs = [(a, False, 'uncached request')]
+        pd = a.get('pdetach')
+        if pd is not None:
+            stats['pdetach:probed'] += 1
+            if pd.get('status') not in ('ok', 'unmodelled') or 'params_codegen' not in pd:
+                stats['pdetach:probe-' + str(pd.get('status'))] += 1
+                if pd.get('status') != a['status']:
+                    ctx.fail(f'params:detached-status:{key}', 'the query compiles as an uncached request but not as a '
+                             'cacheable one', base_detail | {'uncached': a['status'], 'cacheable': pd.get('status'),
+                                                             'err': pd.get('err')})
+            elif not pd.get('detach'):
+                stats['pdetach:server-did-not-detach'] += 1
+                pd_runs.append((pd, False, 'request with a cache key (server did not detach)'))
+            else:
+                stats['pdetach:detached'] += 1
+                pd_runs.append((pd, True, 'cacheable request (PgFunc cache, detach_params=True)'))
+                if pd['argmap'] != a['argmap']:
+                    ctx.fail(f'params:detached-argmap:{key}', 'the argmap differs between detach_params off and on',
+                             base_detail | {'off': a['argmap'], 'on': pd['argmap']})
+                irp = pd['ir_params']
+                if any(s for _, _, s, _ in irp):
+                    where = 'last' if irp[-1][3] or irp[-1][2] else ('first' if irp[0][2] else 'middle')
+                    stats[f'pdetach:tuple-param-{where}:{"globals" if pd["ir_globals"] else "no-globals"}'] += 1
+        for r, det, how in pd_runs:
+            for sub, msg in detach_oracle(r, det):
+                ctx.fail(f'params:detached-{sub}:{key}', msg + f' [{how}]',
+                         base_detail | {'detach_params': det, 'sql': r['sql'], 'argmap': r['argmap'],
+                                        'detached_params': r.get('detached_params'), 'ir_params': r['ir_params'],
+                                        'ir_globals': r['ir_globals'], 'param_pg_types': r.get('param_pg_types'),
+                                        'cache_func': r.get('cache_func')})
         if a['status'] == 'unmodelled':
             stats['unmodelled'] += 1
             stats['unmodelled:' + a['err'][:60]] += 1
